@@ -124,6 +124,49 @@ def regular_hexagons(chk, decks, thorough):
                            'MCNP meaning under affine maps holds for plane-bounded cells and translations')
 
 
+def nested_lattice_decks(seed, n):
+    """Lattices placed in lattice elements: an outer LAT=1 cell (universe 1) whose elements are filled with universe 2,
+    itself one LAT=1 cell of half the pitch (2 x 2 inner elements per outer element) filled with three plain
+    universes, or with a plain universe, or with nothing; the container optionally carries a rotating FILL
+    transformation.  Built here (not by GenLat.tla); judged by the same TLA+ meaning (McnpSem.Locate)."""
+    rng = random.Random(seed)
+
+    def S(k):
+        return ['S', k, 0]
+    decks = []
+    for _trial in range(n):
+        w = rng.choice([1, 2])          # inner pitch 2w; outer pitch = 2*inner pitch (2 inner elements per outer element)
+        nin = 2
+        W = w * nin                     # outer half-width
+        inner_fill = [rng.choice([3, 4, 5]) for _ in range(nin * nin)]
+        outer_rng = [[rng.choice([-1, 0]), rng.choice([0, 1])], [0, rng.choice([0, 1])]]
+        nout = (outer_rng[0][1] - outer_rng[0][0] + 1) * (outer_rng[1][1] - outer_rng[1][0] + 1)
+        outer_fill = [rng.choice([2, 2, 6, 0]) for _ in range(nout)]
+        ftr = rng.random() < 0.4
+        cells = [
+            {'n': 1, 'geom': S(-1), 'fill': 1, 'hasftr': ftr, 'ftr': {'o': [1, -1, 0], 'm': [0, 1, 0, -1, 0, 0, 0, 0, 1]}, 'ftrspell': '12'},
+            {'n': 2, 'geom': S(1), 'imp': 0},
+            # outer lattice in universe 1: unit cell [-W,W]^2, elements filled with universe 2 (inner lattice) or 6 (plain) or 0
+            {'n': 10, 'geom': ['*', S(-11), S(12), S(-13), S(14)], 'u': 1, 'lat': 1, 'lranges': outer_rng, 'lunivs': outer_fill,
+             'lvecs': [[4 * W, 0, 0], [0, 4 * W, 0]], 'mat': 1, 'rhotxt': '-1.0', 'rho': 1},
+            # inner lattice in universe 2: unit cell [-W, -W+2w]^2 (so that 2x2 inner elements tile the outer element)
+            {'n': 20, 'geom': ['*', S(-21), S(22), S(-23), S(24)], 'u': 2, 'lat': 1, 'lranges': [[0, nin - 1], [0, nin - 1]],
+             'lunivs': inner_fill, 'lvecs': [[4 * w, 0, 0], [0, 4 * w, 0]], 'mat': 2, 'rhotxt': '-1.0', 'rho': 1},
+            {'n': 31, 'geom': S(-31), 'u': 3, 'mat': 1, 'rhotxt': '-1.0', 'rho': 1}, {'n': 32, 'geom': S(31), 'u': 3},
+            {'n': 41, 'geom': S(-32), 'u': 4, 'mat': 2, 'rhotxt': '-1.0', 'rho': 1}, {'n': 42, 'geom': S(32), 'u': 4},
+            {'n': 51, 'geom': S(-33), 'u': 5}, {'n': 52, 'geom': S(33), 'u': 5, 'mat': 1, 'rhotxt': '-1.0', 'rho': 1},
+            {'n': 61, 'geom': S(-31), 'u': 6, 'mat': 2, 'rhotxt': '-1.0', 'rho': 1}, {'n': 62, 'geom': S(31), 'u': 6},
+        ]
+        surfs = [{'n': 1, 'k': 'so', 'p': [9]},
+                 {'n': 11, 'k': 'px', 'p': [W]}, {'n': 12, 'k': 'px', 'p': [-W]}, {'n': 13, 'k': 'py', 'p': [W]}, {'n': 14, 'k': 'py', 'p': [-W]},
+                 {'n': 21, 'k': 'px', 'p': [-W + 2 * w]}, {'n': 22, 'k': 'px', 'p': [-W]}, {'n': 23, 'k': 'py', 'p': [-W + 2 * w]}, {'n': 24, 'k': 'py', 'p': [-W]},
+                 {'n': 31, 'k': 'pz', 'p': [0]}, {'n': 32, 'k': 'pz', 'p': [1]}, {'n': 33, 'k': 'pz', 'p': [-2]}]
+        d = adeck.normalise({'cells': cells, 'surfs': surfs})
+        d['rhovalues'] = [-1.0]
+        decks.append(d)
+    return decks
+
+
 def main(prop='C06', module='GenLat'):
     from .. import replay
     replay.maybe_replay(prop)
@@ -139,6 +182,9 @@ def main(prop='C06', module='GenLat'):
     if not decks:
         chk.machinery('no deck generated')
         return chk.finish()
+    if module == 'GenLat':
+        decks = decks + nested_lattice_decks(chk.seed + 66, 300 if thorough else 30)
+        chk.extra['nested_lattice_decks'] = 300 if thorough else 30
     recs, verdicts, nd, meta = common_univ.run(
         chk, decks, 'owner,compo', chk.seed,
         lambda d, r: [adeck.lattice_opts(d) + [f for f in common_univ.FLAGS if r.random() < 0.3]],
